@@ -275,9 +275,10 @@ def r9_4(ctx):
         if mname(t) == "str::strip_prefix":
             s = const_str_of(prog, lp, olp.operand(t["args"][1]))
             stripped.append(s)
-    ctx.check(prefixes == sorted(set(stripped)) == ["$ ", "> "], "command-prefixes", g.where(),
-              "the generator writes commands with %s and the parser strips exactly %s" % (prefixes, sorted(set(stripped))),
-              "writer prefixes %s differ from the prefixes the line parser strips %s" % (prefixes, sorted(set(stripped))))
+    stripped_s = sorted({x if x is not None else "<non-literal>" for x in stripped})
+    ctx.check(prefixes == stripped_s == ["$ ", "> "], "command-prefixes", g.where(),
+              "the generator writes commands with %s and the parser strips exactly %s" % (prefixes, stripped_s),
+              "writer prefixes %s differ from the prefixes the line parser strips %s" % (prefixes, stripped_s))
     # first line `$ `, continuation lines `> ` (skip(1))
     first = [l for b, bb, l in lits if b is g]
     cont = [l for b, bb, l in lits if b is not g]
@@ -323,6 +324,33 @@ def r9_4(ctx):
     gt = prog.impl_fn("Outcome", "OutcomeTestGenerator", "generate_testcase")
     forms2 = ["".join(p if isinstance(p, str) else "{}" for p in ps) for bb, ps in _fmt_literals(gt)]
     ctx.check("[{}]\n" in forms2, "invalid-exit-form", gt.where(), "the InvalidExitCode arm writes the actual code as `[<code>]`")
+
+
+REWRITERS = {"str::trim", "str::trim_end", "str::trim_start", "str::trim_matches", "str::trim_end_matches", "str::trim_start_matches", "str::replace", "str::replacen",
+             "str::to_lowercase", "str::to_uppercase", "str::trim_ascii", "str::trim_ascii_end", "str::trim_ascii_start", "str::split_whitespace", "String::truncate",
+             "String::pop", "String::retain", "slice::trim_ascii", "slice::trim_ascii_end", "BytesNewline::trim_newlines", "StringNewline::trim_newlines"}
+
+
+def r9_7(ctx):
+    """the command is written back verbatim: between `testcase.shell_expression` and the `$ ` / `> ` lines of the generated
+    test no trimming / replacing call is applied (to the expression lines or to the formatted lines)"""
+    prog = ctx.prog
+    g = prog.fn("Outcome::generate_testcase_expression")
+    n = 0
+    for body in [g] + prog.closures_of(g):
+        o = Origins(body)
+        calls = [mname(t) for _, t in body.calls()]
+        bad = sorted({c for c in calls if c in REWRITERS})
+        n += 1
+        nm = "closure" if body is not g else "fn"
+        ctx.check(not bad, "command-verbatim:" + nm + ("#%d" % n), body.where(),
+                  "the expression lines are split at newlines, terminated and prefixed - nothing else",
+                  "generate_testcase_expression applies %s while rendering the command: trailing blanks / tabs of a command line (e.g. inside a here-document) are lost, "
+                  "the rewritten test no longer runs the original command" % bad)
+    o = Origins(g)
+    src = [t for _, t in g.calls() if mname(t) in ("SplitLinesByNewline::split_at_newline",)]
+    ctx.check(len(src) == 1 and any(nn.kind == "field" and nn.a == "shell_expression" for nn in o.operand(src[0]["args"][0]).walk()), "command-source", g.where(),
+              "the rendered command is testcase.shell_expression split at its newlines")
 
 
 def r9_6(ctx):
@@ -384,6 +412,7 @@ def run(ctx):
     ctx.run_rule("R9.1", "Markdown fences: same `\"`\".repeat(max_backtick_size(body)+c)` value opens and closes, c>=1, measured text == emitted text; max_backtick_size >= 2, max over all lines [E-FLOW]", r9_1, floor=12)
     ctx.run_rule("R9.2", "no str::trim* is applied to a generated test body anywhere in src/generators [E-FLOW sweep]", r9_2, floor=2)
     ctx.run_rule("R9.3", "generate_testcase: matched expectations via original_string; unexpected lines via escaped_expectation(trim_newlines(line)) + ` (no-eol)` exactly on !ends_with(\\n) [E-FLOW, E-PATH]", r9_3, floor=8)
+    ctx.run_rule("R9.7", "the shell expression is written back verbatim (`$ `/`> ` + line): no trim/replace in generate_testcase_expression [E-FLOW]", r9_7, floor=3)
     ctx.run_rule("R9.6", "sibling agreement: ` (no-eol)` is never appended after an ` (escaped)` marker (guarded like OutputStream::to_output_string) [E-PATH control dependence]", r9_6, floor=3)
     ctx.run_rule("R9.5", "escaped renderings never contain the decoder's introducer unescaped; ` (escaped)` exactly when the rendering differs (shared with C11 R11.2/R11.3) [E-PATH]", r9_5, floor=10)
     ctx.run_rule("R9.4", "writer/reader tables: `$ `/`> ` prefixes, exit-code line iff code != 0, `[n]` form accepted by the reader's pattern [E-TABLE]", r9_4, floor=6)
